@@ -179,6 +179,13 @@ fn parse_numbered(line: &str, sep: char) -> Option<NumLine> {
     })
 }
 
+/// annotate-snippets can print the marker left of the gutter bar (`^ | label`) when it has
+/// trimmed common leading white space that contains the annotated column.
+fn marker_in_gutter(line: &str) -> bool {
+    let t = line.trim_start_matches(' ');
+    t.starts_with("^ |") || t.starts_with("^| ")
+}
+
 fn is_gutter(line: &str, seps: &[char]) -> bool {
     let t = line.trim_start_matches(' ');
     t.chars().next().map(|c| seps.contains(&c)).unwrap_or(false)
@@ -198,7 +205,7 @@ pub fn parse_windows(rendered: &str, intro: Option<&str>) -> Vec<Vec<NumLine>> {
         }
         if let Some(nl) = parse_numbered(line, '|') {
             cur.push(nl);
-        } else if is_gutter(line, &['|'])
+        } else if (is_gutter(line, &['|']) || marker_in_gutter(line))
             && let Some(last) = cur.last_mut()
         {
             last.anns.push(line.to_string());
@@ -286,6 +293,18 @@ fn chars_at_col(nl: &NumLine, col: usize) -> (Vec<char>, usize) {
 pub fn check_window(win: &[NumLine], ctx: &WinCtx) -> Vec<Verdict> {
     let mut v = Vec::new();
     let name = ctx.name;
+    if ctx.src.lone_cr {
+        // the parser counts a bare CR as a line break, the snippet code does not: line numbers of
+        // the report and of the model differ (named unspecified in DESIGN); only the height is judged
+        if win.len() > 5 {
+            v.push(Verdict::Violation(
+                format!("window-too-tall:{name}"),
+                format!("{} numbered source lines shown (documented: error line +-2)", win.len()),
+            ));
+        }
+        v.push(Verdict::Unspecified("cr-only-line-breaks"));
+        return v;
+    }
     // 1. height
     if win.len() > 5 {
         v.push(Verdict::Violation(
@@ -382,6 +401,53 @@ pub fn check_window(win: &[NumLine], ctx: &WinCtx) -> Vec<Verdict> {
         return v;
     };
     v.push(Verdict::Held("error-line-present"));
+    // 4b. what is shown under that number really is (a crop of) that line of the input
+    if !ctx.src.lone_cr && !ctx.src.inner_bom {
+        if let Some(model) = ctx.src.lines.get(ctx.line as usize - 1) {
+            let mut m = String::with_capacity(model.len());
+            for c in model {
+                match (*c, ctx.raw_window) {
+                    ('\t', false) => m.push_str("    "),
+                    (c, raw) => {
+                        if let Some(s) = shown(c, raw) {
+                            m.push(s)
+                        }
+                    }
+                }
+            }
+            // annotate-snippets trims lines wider than its 140 columns with "..." (not always at
+            // the very end when zero-width characters follow) and may pad where it cuts through a
+            // wide character: compare the pieces between such cuts, leaving a margin next to a cut
+            let pieces: Vec<&str> = el.text.split("...").collect();
+            let np = pieces.len();
+            let mut ok = true;
+            for (pi, piece) in pieces.iter().enumerate() {
+                let mut cs: Vec<char> = piece.chars().collect();
+                if pi > 0 {
+                    cs.drain(..cs.len().min(4));
+                }
+                if pi + 1 < np {
+                    let keep = cs.len().saturating_sub(4);
+                    cs.truncate(keep);
+                }
+                let core: String = cs.into_iter().collect();
+                let core = core.trim_matches('\u{2026}');
+                if !m.contains(core) {
+                    ok = false;
+                    break;
+                }
+            }
+            if ok {
+                v.push(Verdict::Held("error-line-content"));
+            } else {
+                v.push(Verdict::Violation(
+                    format!("error-line-content-mismatch:{name}"),
+                    format!("line {} is shown as {:?}, which is not a crop of input line {:?}", el.n, el.text, m.chars().take(300).collect::<String>()),
+                ));
+                return v;
+            }
+        }
+    }
     // 5. caret
     // reader window that starts inside the error line (the start of the line was evicted from
     // the ring): the crate maps the column into the remaining tail of the line
@@ -427,6 +493,10 @@ pub fn check_window(win: &[NumLine], ctx: &WinCtx) -> Vec<Verdict> {
         "location {}:{} expects {:?}; marker at display column {} is under {:?} in shown line {:?} (marker line {:?})",
         ctx.line, ctx.col, exp, caret_col as i64 - el.text_col as i64, under, el.text, ann
     );
+    if caret_col < el.text_col {
+        v.push(Verdict::Violation(format!("caret-misplaced:{name}:marker-in-gutter"), detail));
+        return v;
+    }
     if ctx.raw_window {
         // Classify the known ways the hand-written window goes wrong. Its marker line always has
         // the 4-column gutter "  | " and pads by *character count*.
@@ -462,8 +532,43 @@ pub fn check_window(win: &[NumLine], ctx: &WinCtx) -> Vec<Verdict> {
 }
 
 /// miette: the first of `─ ┬ ▲` on the marker line under the numbered line.
-pub fn check_miette_marker(wins: &[Vec<NumLine>], src: &SrcModel, line: u64, col: u64) -> Verdict {
+/// `also`: lines of the error's other locations (a label there is expected).
+pub fn check_miette_marker(wins: &[Vec<NumLine>], src: &SrcModel, line: u64, col: u64, also: &[u64]) -> Verdict {
     let Some(el) = wins.iter().flatten().find(|nl| nl.n as u64 == line && nl.anns.iter().any(|a| a.contains(['─', '┬', '▲']))) else {
+        if src.lone_cr || src.inner_bom {
+            return Verdict::Unspecified("miette/cr-or-bom");
+        }
+        // A single-line label (`┬` / `▲` marker) under some other line while the line of the
+        // location carries none: the report points at the wrong line. (Reports without any
+        // simple marker - no label, or a span drawn over several lines - say nothing here.)
+        let simple = |nl: &NumLine| nl.anns.first().map(|a| a.contains(['┬', '▲'])).unwrap_or(false);
+        let multi_line_glyphs = wins.iter().flatten().any(|nl| nl.text.starts_with(['╭', '├', '╰', '│']));
+        if !multi_line_glyphs
+            && let Some(other) = wins.iter().flatten().find(|nl| nl.n as u64 != line && simple(nl))
+            && !also.contains(&(other.n as u64))
+            && src.expect_at(line, col) != Expect::Outside
+        {
+            // label on the line break that ends the previous line, location at column 1 of the
+            // next one: the same point of the text seen from both sides
+            if col == 1 && other.n as u64 + 1 == line {
+                let ann = other.anns.first().map(|a| a.as_str()).unwrap_or("");
+                if let Some(i) = ann.find(['┬', '▲', '─']) {
+                    let at = sw(&ann[..i]);
+                    let end = chars_at_col(other, 0).1;
+                    if at + 1 >= end {
+                        return Verdict::Unspecified("miette/label-on-line-break-before-location");
+                    }
+                }
+            }
+            if line as usize == src.lines.len() && line >= 2 && src.lines.last().map(|l| l.is_empty()).unwrap_or(false) {
+                // the location is the empty line after the final break: nothing can be marked there
+                return Verdict::Unspecified("miette/location-on-empty-line-after-final-break");
+            }
+            return Verdict::Violation(
+                "miette-marker-misplaced:other-line".into(),
+                format!("the error reports {line}:{col}, the label is under line {} ({:?})", other.n, other.text.chars().take(80).collect::<String>()),
+            );
+        }
         if wins.iter().flatten().any(|nl| nl.n as u64 == line) {
             return Verdict::Unspecified("miette/no-marker-line");
         }
@@ -473,12 +578,34 @@ pub fn check_miette_marker(wins: &[Vec<NumLine>], src: &SrcModel, line: u64, col
         return Verdict::Unspecified("miette/cr-or-bom");
     }
     let ann = el.anns.iter().find(|a| a.contains(['─', '┬', '▲'])).unwrap();
-    let idx = ann.find(['─', '┬', '▲']).unwrap();
-    let caret_col = sw(&ann[..idx]);
-    let (under, total) = chars_at_col(el, caret_col);
+    // a line can carry several labels (use site and anchor on one line): every maximal run of
+    // marker characters starts one; the location must be under the start of one of them
+    let mut runs: Vec<usize> = Vec::new();
+    {
+        let mut colpos = 0usize;
+        let mut in_run = false;
+        for ch in ann.chars() {
+            let m = matches!(ch, '─' | '┬' | '▲');
+            if m && !in_run {
+                runs.push(colpos);
+            }
+            in_run = m;
+            colpos += cw(ch);
+        }
+    }
+    let total = chars_at_col(el, 0).1;
+    let mut under: Vec<char> = Vec::new();
+    let mut caret_col = runs[0];
+    for r in &runs {
+        let (u, _) = chars_at_col(el, *r);
+        under.extend(u);
+        caret_col = *r;
+    }
+    let caret_first = runs[0];
     match src.expect_at(line, col) {
         Expect::Outside => Verdict::Unspecified("miette/location-outside-text"),
         Expect::Eol => {
+            let caret_col = caret_col.max(caret_first);
             if caret_col >= total.saturating_sub(1) {
                 Verdict::Held("miette-marker")
             } else {
@@ -532,4 +659,108 @@ pub fn check_miette_marker(wins: &[Vec<NumLine>], src: &SrcModel, line: u64, col
 
 pub fn is_numbered(line: &str, sep: char) -> bool {
     parse_numbered(line, sep).is_some()
+}
+
+
+// ------------------------------------------------------------------ multi-issue reports
+
+/// One snippet window of a report that renders several issues (validation errors): the
+/// location it claims (from the title line `error: <prefix>: …` or from the localizer's
+/// "value comes from the anchor" line) and its numbered lines.
+#[derive(Debug)]
+pub struct Block {
+    pub line: u64,
+    pub col: u64,
+    /// hand-written secondary window
+    pub raw: bool,
+    pub lines: Vec<NumLine>,
+}
+
+fn two_numbers(s: &str, a: &str, b: &str, end: &str) -> Option<(u64, u64)> {
+    let r = s.strip_prefix(a)?;
+    let d1: String = r.chars().take_while(|c| c.is_ascii_digit()).collect();
+    let r = r[d1.len()..].strip_prefix(b)?;
+    let d2: String = r.chars().take_while(|c| c.is_ascii_digit()).collect();
+    if !r[d2.len()..].starts_with(end) || d1.is_empty() || d2.is_empty() {
+        return None;
+    }
+    Some((d1.parse().ok()?, d2.parse().ok()?))
+}
+
+/// `spanish` selects the wording of the check's own custom localizer.
+pub fn parse_blocks(rendered: &str, spanish: bool) -> Vec<Block> {
+    let (t_a, t_b) = if spanish { ("error: l\u{ed}nea ", " columna ") } else { ("error: line ", " column ") };
+    let (i_a, i_b) = if spanish {
+        ("  | el valor viene del ancla en l\u{ed}nea ", " columna ")
+    } else {
+        ("  | This value comes indirectly from the anchor at line ", " column ")
+    };
+    let mut out: Vec<Block> = Vec::new();
+    let mut open = false;
+    for line in rendered.split('\n') {
+        if let Some((l, c)) = two_numbers(line, t_a, t_b, ":") {
+            out.push(Block { line: l, col: c, raw: false, lines: Vec::new() });
+            open = true;
+            continue;
+        }
+        if let Some((l, c)) = two_numbers(line, i_a, i_b, ":") {
+            out.push(Block { line: l, col: c, raw: true, lines: Vec::new() });
+            open = true;
+            continue;
+        }
+        if !open {
+            continue;
+        }
+        if let Some(nl) = parse_numbered(line, '|') {
+            out.last_mut().unwrap().lines.push(nl);
+        } else if is_gutter(line, &['|']) || marker_in_gutter(line) {
+            if let Some(last) = out.last_mut().unwrap().lines.last_mut() {
+                last.anns.push(line.to_string());
+            }
+        } else if line.trim_start().starts_with("-->") {
+        } else {
+            // blank separator or a plain (fallback) message: the window is over
+            open = false;
+        }
+    }
+    out
+}
+
+
+/// The adapter adds ` (column N)` to a label whose line it cropped (miette's own header column
+/// then refers to the cropped text): N must be a column the error reports.
+/// `eol_cols`: for a location at column 1, the end-of-line column of the line before it (the
+/// line break seen from the other side).
+pub fn check_miette_column_notes(rendered: &str, cols: &[u64], eol_cols: &[u64]) -> Verdict {
+    let mut seen = false;
+    for line in rendered.split('\n') {
+        let mut rest = line;
+        while let Some(i) = rest.find(" (column ") {
+            let tail = &rest[i + 9..];
+            let digits: String = tail.chars().take_while(|c| c.is_ascii_digit()).collect();
+            if !digits.is_empty() && tail[digits.len()..].starts_with(')') {
+                seen = true;
+                let n: u64 = digits.parse().unwrap_or(0);
+                if !cols.contains(&n) && !eol_cols.contains(&n) {
+                    return Verdict::Violation(
+                        "miette-column-note-wrong".into(),
+                        format!("label says column {n}, the error reports column(s) {cols:?}: {line:?}"),
+                    );
+                }
+            }
+            rest = tail;
+        }
+    }
+    if seen { Verdict::Held("miette-column-note") } else { Verdict::Held("miette-no-column-note") }
+}
+
+/// Number of leading white-space characters shared by all non-blank numbered lines. The
+/// annotate-snippets renderer trims such a margin beyond 20 columns, so a window that shows a
+/// deeper one was printed by the crate's own plain window printer (raw lines, no tab expansion).
+pub fn shared_leading_ws(win: &[NumLine]) -> usize {
+    win.iter()
+        .filter(|l| !l.text.trim().is_empty())
+        .map(|l| l.text.chars().take_while(|c| c.is_whitespace()).count())
+        .min()
+        .unwrap_or(0)
 }
